@@ -10,7 +10,7 @@ RULE = ("(a) kind 'json': random JSON documents (nesting <= 5; strings over quot
         "astral; integer/float literals incl. 64-bit boundaries) rendered compact, indented and with random extra whitespace; "
         "oracle = equality with the data the document denotes (Spec.C17.expected). (b) kind 'parse': exhaustive short strings over "
         "the scanner's special characters under every parse.Config (valid and invalid) and random flag-style values; compared with the "
-        "model. Plus: parse.Value after other uses of the library in the same process (splices read under IgnoreCommas that fail inside the parser), with a check that package-level parser state is unchanged. Non-trivial: a document with at least one container or escape, or a string with a special character. Distinct by "
+        "model. Plus: parse.Value after other uses of the library in the same process (splices read under IgnoreCommas that fail inside the parser; -D key=value flags of the flag package), with a check that package-level parser state is unchanged. Non-trivial: a document with at least one container or escape, or a string with a special character. Distinct by "
         "(layout, shape class, config, outcome).")
 TRUSTED_BASE = ["Lean 4 kernel", "extractor: stop sets, bool keywords, parse.*Config literals",
                 "strconv.ParseFloat as a parameter (Stdlib.parseFloat; answered by the real stdlib during the run)",
@@ -148,7 +148,11 @@ def gen_after_use(rng, n):
             v = rng.pick(bads) if rng.chance(0.6) else rng.pick(goods)
             ro = [opt("VarExp")] + ([opt("IgnoreCommas")] if rng.chance(0.7) else [])
             pre.append({"from": M([("a", S("1")), ("b", S(v))]), "opts": [opt("VarExp")], "name": "b", "ropts": ro})
-        s = rng.pick(["1,2", "a,b", "[1],2", "1, 2, 3", "x", "[1,2]", "{a: 1},{b: 2}", ","])
+        if rng.chance(0.4):
+            # ... and -D key=value flags handled before (the flag package parses their values with parse.Value)
+            pre.insert(rng.below(len(pre) + 1), {"flag": rng.pick(["k=v", "a.b=1", "l=[1,2]", "o={a: 1}", "b", "k='x", "k=1,2"]),
+                                                  "autoBool": rng.chance(0.5), "opts": [opt("PathSep", ".")]})
+        s = rng.pick(["1,2", "a,b", "[1],2", "1, 2, 3", "x", "[1,2]", "{a: 1},{b: 2}", ",", "{a: 1}", "{a: {b: [1, 2]}}", "[{a: 1}]"])
         yield {"k": "parse", "s": s, "cfg": None, "pre": pre, "_tag": "parse/after-use"}
 
 
